@@ -18,13 +18,16 @@ use crate::{
     world::TW,
 };
 
+/// In-memory sink. With a chunk size it accepts at most that many bytes per `write()` call, as a
+/// socket, a pipe or a fixed buffer may (the `io::Write` contract allows short writes).
 #[derive(Clone, Default)]
-pub struct SharedBuf(pub Rc<RefCell<Vec<u8>>>);
+pub struct SharedBuf(pub Rc<RefCell<Vec<u8>>>, pub Option<usize>);
 
 impl io::Write for SharedBuf {
     fn write(&mut self, buf: &[u8]) -> io::Result<usize> {
-        self.0.borrow_mut().extend_from_slice(buf);
-        Ok(buf.len())
+        let n = self.1.map_or(buf.len(), |c| c.min(buf.len()));
+        self.0.borrow_mut().extend_from_slice(&buf[..n]);
+        Ok(n)
     }
     fn flush(&mut self) -> io::Result<()> {
         Ok(())
@@ -32,6 +35,9 @@ impl io::Write for SharedBuf {
 }
 
 impl SharedBuf {
+    pub fn chunked(n: usize) -> Self {
+        SharedBuf(Rc::default(), Some(n))
+    }
     pub fn text(&self) -> String {
         String::from_utf8_lossy(&self.0.borrow()).into_owned()
     }
@@ -122,6 +128,19 @@ pub fn check_c01(cx: &mut Ctx<'_, '_>) {
         .fail_on_skipped();
     feed(&mut w, items, &bcli);
     results.push(("FailOnSkipped<Repeat::skipped<Summarize<..>>>", true, Stats::<TW>::execution_has_failed(&w)));
+
+    // the pipeline for an already ordered stream: AssertNormalized<Summarize<Basic>> (fed the
+    // normalized stream), and the pass-through wrappers that are not their own writers of verdicts:
+    // discard_arbitrary_writes / discard_stats_writes keep what the inner writer says
+    {
+        let norm = crate::recw::normalize(items);
+        let mut w = writer::Basic::raw(SharedBuf::default(), Coloring::Never, 0).summarized().assert_normalized();
+        feed(&mut w, &norm, &bcli);
+        results.push(("AssertNormalized<Summarize<Basic>>", false, Stats::<TW>::execution_has_failed(&w)));
+        let mut w = writer::Basic::new::<TW>(SharedBuf::default(), Coloring::Never, 0).summarized().discard_arbitrary_writes();
+        feed(&mut w, items, &bcli);
+        results.push(("discard::Arbitrary<Summarize<..>>", false, Stats::<TW>::execution_has_failed(&w)));
+    }
 
     // Normalize<Libtest>
     let buf = SharedBuf::default();
